@@ -51,7 +51,7 @@ def history_stream(tier, rng, removal, classes=(0, 1), exhaustive_len=None, n_ra
     n = n_random if n_random is not None else (3000 if tier == "quick" else 40000)
     for i in range(n):
         d = rng.choice(classes)
-        ids = id_schemes[i % len(id_schemes)] if i % 3 == 0 else "int"
+        ids = id_schemes[(i // 3) % len(id_schemes)] if i % 3 == 0 else "int"
         yield hist_case(d, removal, gen.random_history(rng), ids=ids, src="rand")
     if tier != "quick":
         # length-3/4 single-pair sample beyond the exhaustive bound
@@ -104,6 +104,8 @@ class C03:
                 lo, hi = gen.window(c["ops"], 1)
                 a = rng.randint(lo, hi); b = rng.randint(a, hi)
                 d = dict(c); d["derive"] = [a, b]; d["src"] = c["src"] + "+derived"
+                if d.get("ids") == "mix":
+                    d["ids"] = "str"      # files and JSON need ids that survive str() / json
                 yield d
 
     @staticmethod
